@@ -1,6 +1,7 @@
 package main
 
 import (
+	"go/constant"
 	"fmt"
 	"go/token"
 	"go/types"
@@ -525,10 +526,25 @@ func isLocalAddr(v ssa.Value) bool {
 			v = x.X
 		case *ssa.IndexAddr:
 			v = x.X
+		case *ssa.MakeSlice:
+			return true // elements of a slice this function made
+		case *ssa.Slice:
+			v = x.X
 		default:
 			return false
 		}
 	}
+}
+
+// isNilPredicate: a module function of one reflect.Value parameter returning bool whose body asks (reflect.Value).IsNil.
+func isNilPredicate(cal *ssa.Function) bool {
+	if cal == nil || cal.Blocks == nil || !strings.HasPrefix(pkgPathOf(cal), Mod) || len(cal.Params) != 1 || cal.Signature.Results().Len() != 1 {
+		return false
+	}
+	if !strings.HasSuffix(cal.Params[0].Type().String(), "reflect.Value") || !isBool(cal.Signature.Results().At(0).Type()) {
+		return false
+	}
+	return len(callsTo(cal, "(reflect.Value).IsNil")) > 0
 }
 
 // hasEffects: fn (transitively over static module callees, depth-bounded) stores to non-local memory or updates a map.
@@ -567,22 +583,71 @@ func c13Counts(p *Prog, r *Report) {
 	// (a) SignatureEquals: panics on NumIn/NumOut/In(i).Size/Out(i).Size inequality between the two types
 	if se := p.Fn("internal/patch", "SignatureEquals"); se != nil {
 		got := map[string]bool{}
-		eachInstr(se, func(i ssa.Instruction) {
-			if _, ok := i.(*ssa.Panic); !ok {
+		// the comparison may be delegated to helpers that every accepting return of SignatureEquals has passed through and
+		// that receive the two types as distinct arguments
+		fnset := []*ssa.Function{se}
+		var addHelpers func(f *ssa.Function, depth int)
+		addHelpers = func(f *ssa.Function, depth int) {
+			if depth == 0 {
 				return
 			}
-			for _, g := range guardsAt(i.Block()) {
-				bo, ok := g.Cond.(*ssa.BinOp)
-				if !ok || !((bo.Op == token.NEQ && g.Pol) || (bo.Op == token.EQL && !g.Pol)) {
-					continue
+			eachInstr(f, func(i ssa.Instruction) {
+				cl, ok := i.(*ssa.Call)
+				if !ok {
+					return
 				}
-				lx, lrecv := accessorChain(bo.X)
-				ly, rrecv := accessorChain(bo.Y)
-				if lx != "" && lx == ly && lrecv != rrecv {
-					got[lx] = true
+				cal := staticCallee(cl.Common())
+				if cal == nil || cal.Blocks == nil || relPkg(cal) != relPkg(se) || cal == f {
+					return
 				}
-			}
-		})
+				for _, ret := range returnsOf(f) {
+					if len(ret.Results) > 0 {
+						if cv, isC := retResult(ret, 0).(*ssa.Const); isC && cv.Value != nil && isBool(cv.Type()) && !constant.BoolVal(cv.Value) {
+							continue // a rejecting return need not have run the helper
+						}
+					}
+					if !domInstr(cl, ret) {
+						return
+					}
+				}
+				// the reflect.Type arguments are pairwise distinct values
+				var tys []ssa.Value
+				for _, a := range cl.Call.Args {
+					if strings.HasSuffix(a.Type().String(), "reflect.Type") {
+						for _, t := range tys {
+							if resolveLocal(t) == resolveLocal(a) {
+								return
+							}
+						}
+						tys = append(tys, a)
+					}
+				}
+				if len(tys) < 2 {
+					return
+				}
+				fnset = append(fnset, cal)
+				addHelpers(cal, depth-1)
+			})
+		}
+		addHelpers(se, 2)
+		for _, sf := range fnset {
+			eachInstr(sf, func(i ssa.Instruction) {
+				if _, ok := i.(*ssa.Panic); !ok {
+					return
+				}
+				for _, g := range guardsAt(i.Block()) {
+					bo, ok := g.Cond.(*ssa.BinOp)
+					if !ok || !((bo.Op == token.NEQ && g.Pol) || (bo.Op == token.EQL && !g.Pol)) {
+						continue
+					}
+					lx, lrecv := accessorChain(bo.X)
+					ly, rrecv := accessorChain(bo.Y)
+					if lx != "" && lx == ly && lrecv != rrecv {
+						got[lx] = true
+					}
+				}
+			})
+		}
 		for _, want := range []string{"NumIn", "NumOut", "In.Size", "Out.Size"} {
 			r.Check(got[want], "C13.R5", "SignatureEquals compares "+want, p.Pos(se.Pos()), "mismatch panics",
 				"SignatureEquals no longer panics when "+want+" of target and replacement differ: an ill-fitting callback is installed")
@@ -590,7 +655,8 @@ func c13Counts(p *Prog, r *Report) {
 		// loops cover every index: loop conditions i < X.NumIn() / X.NumOut() with i starting at 0
 		for _, want := range []string{"NumIn", "NumOut"} {
 			okLoop := false
-			eachInstr(se, func(i ssa.Instruction) {
+			for _, sf := range fnset {
+			eachInstr(sf, func(i ssa.Instruction) {
 				iff, ok := i.(*ssa.If)
 				if !ok {
 					return
@@ -619,6 +685,7 @@ func c13Counts(p *Prog, r *Report) {
 					}
 				}
 			})
+			}
 			r.Check(okLoop, "C13.R5", "SignatureEquals loop over 0.."+want, p.Pos(se.Pos()), "every slot compared",
 				"the per-slot size comparison does not range over every index 0.."+want+"()-1")
 		}
@@ -632,51 +699,96 @@ func c13Counts(p *Prog, r *Report) {
 		for _, f := range p.FuncsIn("") {
 			for _, cs := range callsTo(f, full) {
 				n++
-				k := NewKeyer(f)
-				m := NewDBM()
-				guardsToDBM(m, k, cs.Block())
-				// expected: len(list)+skip < T.accessor(), skip = 1 under an isMethod-true guard else 0
-				var lenT, accT *Term
-				skip := int64(0)
+				cons := spec.ctor + " guard in " + shortName(f)
+				// case split on a phi operand of the guards (a bound computed on two paths, e.g. NumIn or NumIn-1)
+				type ccase struct {
+					subst map[ssa.Value]ssa.Value
+					extra []Guard
+				}
+				cases := []ccase{{nil, nil}}
 				for _, g := range guardsAt(cs.Block()) {
-					if pr, ok := g.Cond.(*ssa.Parameter); ok && g.Pol && types.Identical(pr.Type(), types.Typ[types.Bool]) {
-						skip = 1
-					}
-					bo, ok := g.Cond.(*ssa.BinOp)
-					if !ok {
-						continue
-					}
-					for _, side := range []ssa.Value{bo.X, bo.Y} {
-						if nm, _ := accessorChain(side); nm == spec.accessor {
-							t := k.TermOf(side)
-							accT = &t
-						} else if t := k.TermOf(side); strings.HasPrefix(t.Var, "len(") {
-							tt := Term{t.Var, 0}
-							lenT = &tt
+					if bo, ok := g.Cond.(*ssa.BinOp); ok && isIntegerType(bo.X.Type()) {
+						for _, side := range []ssa.Value{bo.X, bo.Y} {
+							if ph, ok := resolveLocal(side).(*ssa.Phi); ok && len(ph.Edges) > 1 && len(ph.Edges) <= 4 && len(cases) == 1 {
+								cases = nil
+								for ei, e := range ph.Edges {
+									pred := ph.Block().Preds[ei]
+									cases = append(cases, ccase{map[ssa.Value]ssa.Value{ph: e}, knownAtEdge(pred, ph.Block())})
+								}
+							}
 						}
 					}
 				}
-				cons := spec.ctor + " guard in " + shortName(f)
-				if lenT == nil || accT == nil {
+				okAll, found := true, true
+				skipTxt := ""
+				for _, cc := range cases {
+					k := NewKeyer(f)
+					k.Subst = cc.subst
+					m := NewDBM()
+					guardsToDBM(m, k, cs.Block())
+					gs := append(append([]Guard{}, guardsAt(cs.Block())...), cc.extra...)
+					// expected: len(list)+skip < T.accessor(), skip = 1 under an isMethod-true guard else 0
+					var lenT, accT *Term
+					skip := int64(0)
+					for _, g := range gs {
+						if pr, ok := g.Cond.(*ssa.Parameter); ok && g.Pol && types.Identical(pr.Type(), types.Typ[types.Bool]) {
+							skip = 1
+						}
+					}
+					for _, g := range guardsAt(cs.Block()) {
+						bo, ok := g.Cond.(*ssa.BinOp)
+						if !ok {
+							continue
+						}
+						for _, side := range []ssa.Value{bo.X, bo.Y} {
+							base := k.res(side)
+							for {
+								if b2, ok := base.(*ssa.BinOp); ok && (b2.Op == token.ADD || b2.Op == token.SUB) {
+									if _, isC := constInt(b2.Y); isC {
+										base = k.res(b2.X)
+										continue
+									}
+								}
+								break
+							}
+							if nm, _ := accessorChain(base); nm == spec.accessor {
+								t := k.TermOf(base)
+								accT = &t
+							} else if t := k.TermOf(side); strings.HasPrefix(t.Var, "len(") {
+								tt := Term{t.Var, 0}
+								lenT = &tt
+							}
+						}
+					}
+					if lenT == nil || accT == nil {
+						found = false
+						break
+					}
+					exp := NewDBM()
+					exp.AddLE(Term{lenT.Var, skip + 1}, *accT) // len+skip < acc
+					imp1 := m.EntailsLE(Term{lenT.Var, skip + 1}, *accT)
+					// converse: expected entails every translatable guard
+					imp2 := true
+					for _, g := range guardsAt(cs.Block()) {
+						bo, ok := g.Cond.(*ssa.BinOp)
+						if !ok || !isIntegerType(bo.X.Type()) {
+							continue
+						}
+						if !exp.EntailsCmp(k.TermOf(bo.X), bo.Op, k.TermOf(bo.Y), g.Pol) {
+							imp2 = false
+						}
+					}
+					if !(imp1 && imp2) {
+						okAll = false
+					}
+					skipTxt += fmt.Sprintf(" len+%d<%s()", skip, spec.accessor)
+				}
+				if !found {
 					r.Bad("C13.R5", cons, p.Pos(posOf(cs)), "the count error is not raised under a comparison of len(supplied list) with "+spec.accessor+"()")
 					continue
 				}
-				exp := NewDBM()
-				exp.AddLE(Term{lenT.Var, skip + 1}, *accT) // len+skip < acc
-				imp1 := m.EntailsLE(Term{lenT.Var, skip + 1}, *accT)
-				// converse: expected entails every translatable guard
-				imp2 := true
-				for _, g := range guardsAt(cs.Block()) {
-					bo, ok := g.Cond.(*ssa.BinOp)
-					if !ok || !isIntegerType(bo.X.Type()) {
-						continue
-					}
-					if !exp.EntailsCmp(k.TermOf(bo.X), bo.Op, k.TermOf(bo.Y), g.Pol) {
-						imp2 = false
-					}
-				}
-				r.Check(imp1 && imp2, "C13.R5", cons, p.Pos(posOf(cs)), fmt.Sprintf("raised exactly when len+%d < %s()", skip, spec.accessor),
-					fmt.Sprintf("the count check is not 'len(supplied)+%d < %s()': too-short lists are accepted or well-formed ones rejected", skip, spec.accessor))
+				r.Check(okAll, "C13.R5", cons, p.Pos(posOf(cs)), "raised exactly when"+skipTxt,
+					"the count check is not 'len(supplied)+skip < "+spec.accessor+"()' (skip = 1 for methods): too-short lists are accepted or well-formed ones rejected")
 			}
 		}
 		if n == 0 {
